@@ -336,6 +336,17 @@ void SPxMainSM<R>::RowSingletonPS::execute(VectorBase<R>& x, VectorBase<R>& y, V
             r[m_j] = val;
          }
       }
+      else if((m_strictLo && EQrel(newLo, x[m_j], this->feastol()))
+              || (m_strictUp && EQrel(newUp, x[m_j], this->feastol())))
+      {
+         // the row supplies the bound xj sits on (the opposite one stems from a later reduction) and
+         // xj is on none of its old bounds: xj should in the basic
+         rStatus[m_i] = (EQrel(m_lhs, x[m_j] * aij,
+                               this->feastol())) ? SPxSolverBase<R>::ON_LOWER : SPxSolverBase<R>::ON_UPPER;
+         cStatus[m_j] = SPxSolverBase<R>::BASIC;
+         y[m_i] = val / aij;
+         r[m_j] = 0.0;
+      }
       else
       {
          // the variable is set to FIXED by other constraints, i.e., this singleton row is redundant
